@@ -114,3 +114,45 @@ Definition cinit (c0 : nat) (ts : list (list cop)) : cstate :=
   mk_cs_state c0 (fun i => (0, nth i ts [])) [].
 
 Definition is_add (o : cop) : bool := match o with CAdd => true | _ => false end.
+
+(* ------------------------------------------------------------------ *)
+(** * Command routing in the session cache                              *)
+(* SessionCache.Store / MapCommand / Invalidate, each atomic under the cache lock;
+   a client-session registration is Store followed by MapCommand and is NOT atomic
+   with respect to other goroutines' operations. Entries are compared by identity
+   (pointer), modelled as a number. Each mapping carries a ghost: the entry that was
+   stored under the id when the mapping was made. *)
+Inductive cache_op := OStore (id e : nat) | OMap (key id : nat) | OInvalidate (id : nat).
+Record cache_st := mk_cache { cs_sessions : list (nat * nat); cs_cmap : list (nat * nat * option nat) }.
+
+Fixpoint assoc (k : nat) (l : list (nat * nat)) : option nat :=
+  match l with [] => None | (a, b) :: r => if Nat.eqb a k then Some b else assoc k r end.
+Definition drop_id (id : nat) (l : list (nat * nat)) := filter (fun p => negb (Nat.eqb (fst p) id)) l.
+Definition purge (id : nat) (m : list (nat * nat * option nat)) := filter (fun p => negb (Nat.eqb (snd (fst p)) id)) m.
+Definition drop_key (k : nat) (m : list (nat * nat * option nat)) := filter (fun p => negb (Nat.eqb (fst (fst p)) k)) m.
+
+Definition opt_eqb (a : option nat) (b : nat) : bool := match a with Some x => Nat.eqb x b | None => false end.
+
+(* [lazy]: purge the id's mappings only when an entry is REPLACED (the variant that is wrong) *)
+Definition cache_step (lazy : bool) (s : cache_st) (o : cache_op) : cache_st :=
+  match o with
+  | OStore id e =>
+      let cur := assoc id (cs_sessions s) in
+      let differs := negb (opt_eqb cur e) in
+      let do_purge := if lazy then differs && match cur with Some _ => true | None => false end else differs in
+      mk_cache ((id, e) :: drop_id id (cs_sessions s)) (if do_purge then purge id (cs_cmap s) else cs_cmap s)
+  | OMap k id => mk_cache (cs_sessions s) ((k, id, assoc id (cs_sessions s)) :: drop_key k (cs_cmap s))
+  | OInvalidate id => mk_cache (drop_id id (cs_sessions s)) (purge id (cs_cmap s))
+  end.
+
+Definition cache_run (lazy : bool) (ops : list cache_op) : cache_st :=
+  fold_left (cache_step lazy) ops (mk_cache [] []).
+
+(* LookupByCommand: the mapped id's current entry, with the ghost of the mapping used *)
+Fixpoint cmap_find (k : nat) (m : list (nat * nat * option nat)) : option (nat * option nat) :=
+  match m with [] => None | (a, id, g) :: r => if Nat.eqb a k then Some (id, g) else cmap_find k r end.
+Definition lookup_by_command (s : cache_st) (k : nat) : option (nat * option nat) :=
+  match cmap_find k (cs_cmap s) with
+  | Some (id, g) => match assoc id (cs_sessions s) with Some e => Some (e, g) | None => None end
+  | None => None
+  end.
